@@ -62,8 +62,7 @@ class TwoRateTokenBucket(Device):
         priority handling.
         """
         while True:
-            item: PriorityItem = yield self.store.get()
-            packet: Packet = item.item
+            packet: Packet = yield self.store.get()
             now = env.now
 
             self.current_bucket_commit = min(
